@@ -30,7 +30,7 @@ def build(repo="/repo"):
     return os.path.join(env["CARGO_TARGET_DIR"], "release", "slicec-bounded"), ""
 
 
-def run(check, repo="/repo", timeout=600):
+def run(check, repo="/repo", timeout=600, deep=False):
     t0 = time.time()
     exe, err = build(repo)
     if exe is None:
@@ -38,7 +38,7 @@ def run(check, repo="/repo", timeout=600):
     scratch = os.path.join(VERIF, "build", "scratch")
     os.makedirs(scratch, exist_ok=True)
     p = subprocess.run(["timeout", str(timeout), exe, check], capture_output=True, text=True,
-                       env=dict(os.environ, VERIF_SCRATCH=scratch))
+                       env=dict(os.environ, VERIF_SCRATCH=scratch, **({"VERIF_BOUNDED_DEEP": "1"} if deep else {})))
     cex, summary = [], None
     for ln in p.stdout.split("\n"):
         ln = ln.strip()
